@@ -18,6 +18,7 @@ insertion-ordered maps the code uses):
 * `admitOpt` applies the label filter; the metric's own labels go on top.
 -/
 import MetricsVerif.Proofs.Tracing
+import MetricsVerif.Generated.SourceFacts
 
 namespace MetricsVerif.C17
 open MetricsVerif.Tracing
@@ -282,6 +283,142 @@ theorem allowlist_admits_iff (names : List Str) (name k v : Str) :
     (Filter.allowlist names).shouldInclude name k v = true ↔ k ∈ names := by
   simp [Filter.shouldInclude]
 
+/-! ## the object pool: maps of closed spans are reused, and it never shows
+
+`Labels::default()` does not build a map, it pulls one out of a process-wide pool into which the maps of closed
+spans (of any thread, of any subscriber) and the temporaries of `record()` are handed back.  The statements
+above read "a new span starts from an empty map"; here that is proved of the pooled code, for ALL programs
+with any closings in any places. -/
+
+/-- a fresh process: fresh subscriber, nothing in the pool -/
+def pinit : PState := {}
+
+/-- **Pool invariant.**  After any program (spans created, recorded on, entered, left, closed in any order)
+    every free map of the pool is empty. -/
+theorem pool_clean (ops : List POp) : ∀ m ∈ (prun pinit ops).pool, m = [] :=
+  (prun_of_clean ops (p := pinit) (by intro m hm; simp [pinit] at hm)).1
+
+/-- **Closed spans leave no trace.**  The subscriber state after any program with closings is the state of the
+    same program without them, in the pool-free reading every theorem above is about. -/
+theorem pooled_run_base (ops : List POp) : (prun pinit ops).base = run init (baseOps ops) := by
+  have h := (prun_of_clean ops (p := pinit) (by intro m hm; simp [pinit] at hm)).2
+  rw [h, baseStep_foldl]; rfl
+
+/-- the same from any state whose pool is clean (e.g. a pool filled by another subscriber's closed spans) -/
+theorem pooled_run_base_from (p : PState) (h : PoolClean p) (ops : List POp) :
+    (prun p ops).base = run p.base (baseOps ops) ∧ PoolClean (prun p ops) := by
+  have h' := prun_of_clean ops h
+  exact ⟨by rw [h'.2, baseStep_foldl], h'.1⟩
+
+/-- **The pool across subscribers.**  When a subscriber goes away after any program, all its open spans hand
+    their maps back; the pool the next subscriber (of any thread) finds is clean again, so
+    `pooled_run_base_from` applies to it. -/
+theorem pool_clean_after_drop (ops : List POp) : ∀ m ∈ poolAfterDrop (prun pinit ops), m = [] :=
+  poolAfterDrop_clean (prun_of_clean ops (p := pinit) (by intro m hm; simp [pinit] at hm)).1
+
+/-- **A span created after any history starts from its own fields.**  Whatever was created, recorded and
+    closed before, the map stored for a new span is its own fields followed by what its parent shows. -/
+theorem pooled_new_span_fresh (ops : List POp) (t : Nat) (par : Parent) (fields : List (Str × Value)) :
+    let p := prun pinit ops
+    (pstep p (.base (.newSpan t par fields))).base.spans
+      = p.base.spans ++ [newSpanLabels fields (parentLabels p.base (resolveParent p.base t par))] := by
+  intro p
+  have hc : PoolClean p := (prun_of_clean ops (p := pinit) (by intro m hm; simp [pinit] at hm)).1
+  rw [(pstep_of_clean hc _).2]
+  rfl
+
+/-- **Emission after closings.**  The key handed to the inner recorder after any program with closings obeys
+    the lookup rule of `emit_lookup` on the program without them: own label, else admitted visible field. -/
+theorem pooled_emit_lookup (ops : List POp) (f : Filter) (t : Nat) (name : Str) (labels : List (Str × Str))
+    (hl : (FMap.keys labels).Nodup) (k : Str) :
+    let sc := runG init [] (baseOps ops)
+    FMap.get? (emit (prun pinit ops).base f t name labels) k
+      = (FMap.get? labels k).or (admitOpt f name k (visibleAt sc.1 sc.2 t k)) := by
+  intro sc
+  rw [pooled_run_base, ← runG_state]
+  exact emit_lookup (baseOps ops) f t name labels hl k
+
+/-- **Unchanged without fields, after closings**: stale labels of finished spans never reach a key -/
+theorem pooled_emit_unchanged_no_fields (ops : List POp) (f : Filter) (t : Nat) (name : Str)
+    (labels : List (Str × Str)) :
+    let sc := runG init [] (baseOps ops)
+    (∀ k, visibleAt sc.1 sc.2 t k = none) → emit (prun pinit ops).base f t name labels = labels := by
+  intro sc h
+  rw [pooled_run_base, ← runG_state]
+  exact emit_unchanged_no_fields (baseOps ops) f t name labels h
+
+/-- the invariant is what carries these: from a pool holding a non-empty free map the code does show stale
+    labels (a root span without fields comes out with the leftover), so a `reset` callback that leaves
+    entries behind breaks the property -/
+theorem dirty_pool_leaks :
+    (pstep { pool := [[(['a'], ['x'])]] } (.base (.newSpan 0 .root []))).base.spans = [[(['a'], ['x'])]] := by
+  decide
+
+/-- a subscriber without a `MetricsLayer`: every key is handed on unchanged -/
+theorem emit_unchanged_no_layer (s : State) (f : Filter) (t : Nat) (name : Str) (labels : List (Str × Str)) :
+    emitCfg false s f t name labels = labels ∧ emitCfg true s f t name labels = emit s f t name labels :=
+  ⟨rfl, rfl⟩
+
+/-! ## source facts: what ties the model's shape to the text of the crate -/
+
+/-- the pool is built with `Map::new` / `Map::clear` (`poolInit` / `poolReset`), `Labels::default()` pulls
+    from it and `from_record` starts from `Labels::default()` -/
+theorem src_pool :
+    Generated.tracing_pool_callbacks = ["Map::new", "Map::clear"]
+    ∧ Generated.tracing_labels_default = "{Labels(get_pool().pull_owned())}"
+    ∧ Generated.tracing_from_record = "{letmutlabels=Labels::default();record.record(&mutlabels);labels}" := by
+  decide
+
+/-- `Labels::extend` walks ALL of `other`; the keep variant is `entry().or_insert_with`, the overwrite variant
+    `insert`; every `Visit` arm inserts under the field's name -/
+theorem src_extend :
+    Generated.tracing_extend_loop = ["for(k,v)inother.as_ref()", "{f(&mutself.0,k,v);}"]
+    ∧ Generated.tracing_extend_keep = "{map.entry(k.clone()).or_insert_with(||v.clone());}"
+    ∧ Generated.tracing_extend_overwrite = "{map.insert(k.clone(),v.clone());}"
+    ∧ Generated.tracing_visit_fns
+        = ["record_str:insert", "record_bool:insert", "record_i64:insert", "record_u64:insert", "record_debug:insert"] := by
+  decide
+
+/-- call order of the two subscriber callbacks and of the lookup `enhance_key` goes through -/
+theorem src_layer_calls :
+    Generated.tracing_on_new_span_calls = ["from_record", "parent", "get", "extend_from_labels", "insert"]
+    ∧ Generated.tracing_on_record_calls = ["from_record", "get_mut", "extend_from_labels_overwrite", "insert"]
+    ∧ Generated.tracing_lookup_calls = ["downcast_ref", "span", "extensions", "f", "get"]
+    ∧ Generated.tracing_with_labels
+        = "{letmutff=|labels:&Labels|f(labels.0.clone());(self.with_labels?)(dispatch,id,&mutff)}" := by
+  decide
+
+/-- `enhance_key`: filter (`retain` with the metric's name and the label) BEFORE the metric's own labels are
+    put on top (`extend`) -/
+theorem src_enhance_key :
+    Generated.tracing_enhance_key_calls
+      = ["get_default", "current_span", "id", "downcast_ref", "is_empty", "then", "into_parts", "retain",
+         "should_include_label", "extend", "from_parts", "with_labels"]
+    ∧ Generated.tracing_enhance_filter_args = ["&name", "&label"] := by
+  decide
+
+set_option maxRecDepth 8192 in
+/-- every `register_*` registers the ENHANCED key (the original one only when `enhance_key` gave none) with
+    the caller's metadata at the inner recorder and returns the inner recorder's handle; every `describe_*`
+    is handed on untouched -/
+theorem src_recorder_forwards :
+    Generated.tracing_recorder_fns
+      = ["describe_counter:{self.inner.describe_counter(key_name,unit,description)}",
+         "describe_gauge:{self.inner.describe_gauge(key_name,unit,description)}",
+         "describe_histogram:{self.inner.describe_histogram(key_name,unit,description)}",
+         "register_counter:{letnew_key=self.enhance_key(key);letkey=new_key.as_ref().unwrap_or(key);self.inner.register_counter(key,metadata)}",
+         "register_gauge:{letnew_key=self.enhance_key(key);letkey=new_key.as_ref().unwrap_or(key);self.inner.register_gauge(key,metadata)}",
+         "register_histogram:{letnew_key=self.enhance_key(key);letkey=new_key.as_ref().unwrap_or(key);self.inner.register_histogram(key,metadata)}"] := by
+  decide
+
+/-- the crate's two filters: exact membership of the label's name in the set built from the given names
+    unchanged; include-all is constantly true -/
+theorem src_filters :
+    Generated.tracing_allowlist_include = "{self.label_names.contains(label.key())}"
+    ∧ Generated.tracing_allowlist_new = "{Self{label_names:allowed.into_iter().map(|s|s.as_ref().to_string()).collect()}}"
+    ∧ Generated.tracing_includeall_include = "{true}" := by
+  decide
+
 /-! ## non-vacuity: concrete programs -/
 
 section examples
@@ -330,6 +467,23 @@ example : ∀ op ∈ ([.newSpan 1 (.explicit 1) [(A, .u64 5)], .enter 1 2, .reco
 example : emit init .includeAll 0 M [(A, ['1']), (A, ['2'])] = [(A, ['1']), (A, ['2'])] := by decide
 example : emit (run init prog) .includeAll 0 M [(A, ['1']), (A, ['2'])]
     = [(A, ['2']), (B, ['t', 'r', 'u', 'e']), (C, ['o', 'c'])] := by decide
+
+/-- wide-stack leaf closes, its map goes back to the pool; the next span (no fields, root) is empty and a metric
+    inside it keeps its key; the pool holds the two maps handed back (the record temporary and the leaf's) -/
+private def pprog : List POp :=
+  [ .base (.newSpan 0 .contextual [(A, .str ['o', 'a']), (B, .str ['o', 'b'])]),
+    .base (.enter 0 0),
+    .base (.newSpan 0 .contextual [(C, .u64 7)]),
+    .base (.record 0 1 [(C, .i64 (-1))]),
+    .close 1,
+    .base (.exit 0 0),
+    .base (.newSpan 0 .root []),
+    .base (.enter 0 2) ]
+
+example : (prun pinit pprog).base.spans[2]? = some [] := by decide
+example : emit (prun pinit pprog).base .includeAll 0 M [(A, ['m'])] = [(A, ['m'])] := by decide
+example : (prun pinit pprog).closed = [1] ∧ (prun pinit pprog).pool = [[]] := by decide
+example : pinned (prun pinit pprog) 4 0 = false ∧ pinned (prun pinit (pprog.take 4)) 4 0 = true := by decide
 
 end examples
 
